@@ -488,10 +488,13 @@ def stray_jump_family(quick, rng):
     for sh in shapes:
         pres = ["", "functie h_() { 1 }; h_();", "stel z_ = 0; zolang z_ < 1 { z_ += 1 };", "zolang nee { };", "stel g_ = functie(q) { q }; g_(1);"]
         for jump in ("stop", "volgende"):
-            body = "t += 1; %s %s; t += 100" % (pres[(len(out) // 2) % len(pres)] if len(sh) > 1 else rng.choice(pres), jump)
-            for n, w in enumerate(reversed(sh)):
-                body = wrap[w](n, body)
-            out.append("stel t = 0; %s; t" % body)
+            # what stands before the jump at its own level: nothing, a finished loop, a nested function (statement or
+            # expression) - all of them for the short shapes, one in rotation for the long ones
+            for pre in (pres if len(sh) <= 2 else [pres[(len(out) // 2) % len(pres)]]):
+                body = "t += 1; %s %s; t += 100" % (pre, jump)
+                for n, w in enumerate(reversed(sh)):
+                    body = wrap[w](n, body)
+                out.append("stel t = 0; %s; t" % body)
     return out
 
 
